@@ -41,8 +41,24 @@ def gen_case(rng):
     kind = rng.random()
     top = names[-1]
     meta = {"kind": "chain"}
-    if kind < 0.35:
+    if kind < 0.3:
         pass
+    elif kind < 0.35:
+        # wildcards in a DIRECTORY component of $parent (io/fs.Glob beneath the root): every matching directory is
+        # listed, in order; a directory whose name adds a dot is skipped by the dot-count rule; a link to a directory counts
+        ext, docs = contents[top]
+        d0 = dict(docs[0])
+        d0["$parent"] = rng.choice(["d*/w", "*/w", "d?/w", "d1/../d*/w", "d*/w*", "./d*/w", "nosuch*/w", "d*/nosuch", "d1/w", "dl/w", "*/*"])
+        contents[top] = (ext if ext != "toml" else "yaml", [d0])
+        extra_layout = {"d1/w.yaml": {"fmt": "yaml", "docs": [{"w": 1, "a": {"z": 1}}]}, "d2/w.json": {"fmt": "json", "docs": [{"w2": 2}]},
+                        "d.x/w.yaml": {"fmt": "yaml", "docs": [{"dotted_dir": True}]}, "d3/other.yaml": {"fmt": "yaml", "docs": [{"o": 3}]},
+                        "d1/w.sub.yaml": {"fmt": "yaml", "docs": [{"never": True}]}}
+        if rng.random() < 0.4:
+            extra_layout["dl"] = {"link": "d1"}
+        if rng.random() < 0.3:
+            extra_layout["d4/w.txt"] = {"fmt": "yaml", "docs": [{"unsupported": 1}]}
+        meta["kind"] = "parent-dir-wildcard"
+        meta["extra_layout"] = extra_layout
     elif kind < 0.45 and depth >= 3:
         # a missing middle layer must be an error
         del contents[names[1]]
@@ -108,6 +124,7 @@ def gen_case(rng):
         if ext == "toml" and not all(formats.toml_ok(d) for d in docs):
             ext = "yaml"
         layout[f"{n}.{ext}"] = {"fmt": ext, "docs": docs}
+    layout.update(meta.pop("extra_layout", {}))
     topfile = next((f for f in layout if f.rsplit(".", 1)[0] == top), None)
     if meta["kind"] == "symlink" and topfile:
         # the link inherits from its TARGET's name; its own name (plain or dotted, with or without an existing
